@@ -124,14 +124,21 @@ def pin_container_tree_amalgam1_Len : List String := ["func (r *amalgam1[K, V]) 
 
 /-- `backwardIterator.Next` in `container/tree`: signature and full statement list, locals renamed positionally -/
 def pin_container_tree_backwardIterator_Next : List String := ["func (r *backwardIterator[K, V]) Next() (KVPair[K, V], bool)",
+  "var v0 KVPair[K, V]",
+  "if r.done {",
+  "return v0, false",
+  "}",
   "if r.c.lost() {",
   "r.c.SeekLastLessOrEqual(r.c.Key())",
   "}",
   "if r.c.curr == nil {",
-  "var v0 KVPair[K, V]",
   "return v0, false",
   "}",
   "v1 := r.c.Key()",
+  "if r.inRange != nil && !r.inRange(v1) {",
+  "r.done = true",
+  "return v0, false",
+  "}",
   "v2 := r.c.valueUnchecked()",
   "r.c.Prev()",
   "return KVPair[K, V]{v1, v2}, true"]
@@ -238,14 +245,14 @@ def pin_container_tree_btree_Range : List String := ["func (r *btree[K, V]) Rang
   "}",
   "switch p1.type_ {",
   "case boundInclude:",
-  "return iterator.While(v0.Forward(), func(v1 KVPair[K, V]) bool { })",
+  "return v0.ForwardWhile(func(v1 K) bool { })",
   "func#0 {",
-  "return r.compare(v1.Key, p1.key) <= 0",
+  "return r.compare(v1, p1.key) <= 0",
   "}",
   "case boundExclude:",
-  "return iterator.While(v0.Forward(), func(v2 KVPair[K, V]) bool { })",
+  "return v0.ForwardWhile(func(v2 K) bool { })",
   "func#0 {",
-  "return r.compare(v2.Key, p1.key) < 0",
+  "return r.compare(v2, p1.key) < 0",
   "}",
   "case boundUnbounded:",
   "return v0.Forward()",
@@ -268,14 +275,14 @@ def pin_container_tree_btree_RangeReverse : List String := ["func (r *btree[K, V
   "}",
   "switch p0.type_ {",
   "case boundInclude:",
-  "return iterator.While(v0.Backward(), func(v1 KVPair[K, V]) bool { })",
+  "return v0.BackwardWhile(func(v1 K) bool { })",
   "func#0 {",
-  "return r.compare(v1.Key, p0.key) >= 0",
+  "return r.compare(v1, p0.key) >= 0",
   "}",
   "case boundExclude:",
-  "return iterator.While(v0.Backward(), func(v2 KVPair[K, V]) bool { })",
+  "return v0.BackwardWhile(func(v2 K) bool { })",
   "func#0 {",
-  "return r.compare(v2.Key, p0.key) > 0",
+  "return r.compare(v2, p0.key) > 0",
   "}",
   "case boundUnbounded:",
   "return v0.Backward()",
@@ -500,6 +507,22 @@ def pin_container_tree_btree_steal : List String := ["func (r *btree[K, V]) stea
   "}",
   "return false"]
 
+/-- `cursor.Backward` in `container/tree`: signature and full statement list, locals renamed positionally -/
+def pin_container_tree_cursor_Backward : List String := ["func (r *cursor[K, V]) Backward() iterator.Iterator[KVPair[K, V]]",
+  "return &backwardIterator[K, V]{c: *r}"]
+
+/-- `cursor.BackwardWhile` in `container/tree`: signature and full statement list, locals renamed positionally -/
+def pin_container_tree_cursor_BackwardWhile : List String := ["func (r *cursor[K, V]) BackwardWhile(p0 func(K) bool) iterator.Iterator[KVPair[K, V]]",
+  "return &backwardIterator[K, V]{c: *r, inRange: p0}"]
+
+/-- `cursor.Forward` in `container/tree`: signature and full statement list, locals renamed positionally -/
+def pin_container_tree_cursor_Forward : List String := ["func (r *cursor[K, V]) Forward() iterator.Iterator[KVPair[K, V]]",
+  "return &forwardIterator[K, V]{c: *r}"]
+
+/-- `cursor.ForwardWhile` in `container/tree`: signature and full statement list, locals renamed positionally -/
+def pin_container_tree_cursor_ForwardWhile : List String := ["func (r *cursor[K, V]) ForwardWhile(p0 func(K) bool) iterator.Iterator[KVPair[K, V]]",
+  "return &forwardIterator[K, V]{c: *r, inRange: p0}"]
+
 /-- `cursor.Next` in `container/tree`: signature and full statement list, locals renamed positionally -/
 def pin_container_tree_cursor_Next : List String := ["func (r *cursor[K, V]) Next()",
   "if r.lost() {",
@@ -668,14 +691,21 @@ def pin_container_tree_cursor_seek : List String := ["func (r *cursor[K, V]) see
 
 /-- `forwardIterator.Next` in `container/tree`: signature and full statement list, locals renamed positionally -/
 def pin_container_tree_forwardIterator_Next : List String := ["func (r *forwardIterator[K, V]) Next() (KVPair[K, V], bool)",
+  "var v0 KVPair[K, V]",
+  "if r.done {",
+  "return v0, false",
+  "}",
   "if r.c.lost() {",
   "r.c.SeekFirstGreaterOrEqual(r.c.Key())",
   "}",
   "if r.c.curr == nil {",
-  "var v0 KVPair[K, V]",
   "return v0, false",
   "}",
   "v1 := r.c.Key()",
+  "if r.inRange != nil && !r.inRange(v1) {",
+  "r.done = true",
+  "return v0, false",
+  "}",
   "v2 := r.c.valueUnchecked()",
   "r.c.Next()",
   "return KVPair[K, V]{v1, v2}, true"]
@@ -732,22 +762,6 @@ def pin_container_tree_rightmostLeaf : List String := ["func rightmostLeaf[T0 an
   "v0 = v0.children[int(v0.n)]",
   "}"]
 
-/-- `whileIterator.Next` in `iterator`: signature and full statement list, locals renamed positionally -/
-def pin_iterator_whileIterator_Next : List String := ["func (r *whileIterator[T]) Next() (T, bool)",
-  "var v0 T",
-  "if r.done {",
-  "return v0, false",
-  "}",
-  "v1, v2 := r.inner.Next()",
-  "if !v2 {",
-  "return v0, false",
-  "}",
-  "if !r.f(v1) {",
-  "r.done = true",
-  "return v0, false",
-  "}",
-  "return v1, true"]
-
 /-- `LessCompare` in `xsort`: signature and full statement list, locals renamed positionally -/
 def pin_xsort_LessCompare : List String := ["func LessCompare[T0 any](p0 Less[T0]) func(T0, T0) int",
   "return func(v0, v1 T0) int { }",
@@ -793,7 +807,9 @@ def pin_container_tree_type_amalgam1 : List String := ["type amalgam1[K any, V a
 
 /-- type `backwardIterator` of `container/tree`: one line per field / method -/
 def pin_container_tree_type_backwardIterator : List String := ["type backwardIterator[K any, V any] struct",
-  "c cursor[K, V]"]
+  "c cursor[K, V]",
+  "inRange func(K) bool",
+  "done bool"]
 
 /-- type `boundType` of `container/tree`: one line per field / method -/
 def pin_container_tree_type_boundType : List String := ["type boundType int"]
@@ -815,7 +831,9 @@ def pin_container_tree_type_cursor : List String := ["type cursor[K any, V any] 
 
 /-- type `forwardIterator` of `container/tree`: one line per field / method -/
 def pin_container_tree_type_forwardIterator : List String := ["type forwardIterator[K any, V any] struct",
-  "c cursor[K, V]"]
+  "c cursor[K, V]",
+  "inRange func(K) bool",
+  "done bool"]
 
 /-- type `node` of `container/tree`: one line per field / method -/
 def pin_container_tree_type_node : List String := ["type node[K any, V any] struct",
@@ -832,98 +850,6 @@ def pin_container_tree_vars : List String := ["const branchFactor = 16",
   "const boundInclude boundType = iota + 1",
   "const boundExclude",
   "const boundUnbounded"]
-
-/-- type `Iterator` of `iterator`: one line per field / method -/
-def pin_iterator_type_Iterator : List String := ["type Iterator[T any] interface",
-  "Next func() (T, bool)"]
-
-/-- type `Peekable` of `iterator`: one line per field / method -/
-def pin_iterator_type_Peekable : List String := ["type Peekable[T any] interface",
-  "Iterator[T]",
-  "Peek func() (T, bool)"]
-
-/-- type `chanIterator` of `iterator`: one line per field / method -/
-def pin_iterator_type_chanIterator : List String := ["type chanIterator[T any] struct",
-  "c <-chan T"]
-
-/-- type `chunkIterator` of `iterator`: one line per field / method -/
-def pin_iterator_type_chunkIterator : List String := ["type chunkIterator[T any] struct",
-  "inner Iterator[T]",
-  "chunkSize int"]
-
-/-- type `compactIterator` of `iterator`: one line per field / method -/
-def pin_iterator_type_compactIterator : List String := ["type compactIterator[T any] struct",
-  "inner Iterator[T]",
-  "prev T",
-  "first bool",
-  "eq func(T, T) bool"]
-
-/-- type `counterIterator` of `iterator`: one line per field / method -/
-def pin_iterator_type_counterIterator : List String := ["type counterIterator struct",
-  "i int",
-  "n int"]
-
-/-- type `emptyIterator` of `iterator`: one line per field / method -/
-def pin_iterator_type_emptyIterator : List String := ["type emptyIterator[T any] struct"]
-
-/-- type `filterIterator` of `iterator`: one line per field / method -/
-def pin_iterator_type_filterIterator : List String := ["type filterIterator[T any] struct",
-  "inner Iterator[T]",
-  "keep func(T) bool"]
-
-/-- type `firstIterator` of `iterator`: one line per field / method -/
-def pin_iterator_type_firstIterator : List String := ["type firstIterator[T any] struct",
-  "inner Iterator[T]",
-  "x int"]
-
-/-- type `flattenIterator` of `iterator`: one line per field / method -/
-def pin_iterator_type_flattenIterator : List String := ["type flattenIterator[T any] struct",
-  "inner Iterator[Iterator[T]]",
-  "curr Iterator[T]"]
-
-/-- type `joinIterator` of `iterator`: one line per field / method -/
-def pin_iterator_type_joinIterator : List String := ["type joinIterator[T any] struct",
-  "iters []Iterator[T]"]
-
-/-- type `mapIterator` of `iterator`: one line per field / method -/
-def pin_iterator_type_mapIterator : List String := ["type mapIterator[T any, U any] struct",
-  "inner Iterator[T]",
-  "f func(T) U"]
-
-/-- type `peekable` of `iterator`: one line per field / method -/
-def pin_iterator_type_peekable : List String := ["type peekable[T any] struct",
-  "inner Iterator[T]",
-  "curr T",
-  "has bool"]
-
-/-- type `repeatIterator` of `iterator`: one line per field / method -/
-def pin_iterator_type_repeatIterator : List String := ["type repeatIterator[T any] struct",
-  "item T",
-  "x int"]
-
-/-- type `runsInnerIterator` of `iterator`: one line per field / method -/
-def pin_iterator_type_runsInnerIterator : List String := ["type runsInnerIterator[T any] struct",
-  "parent *runsIterator[T]",
-  "prev T"]
-
-/-- type `runsIterator` of `iterator`: one line per field / method -/
-def pin_iterator_type_runsIterator : List String := ["type runsIterator[T any] struct",
-  "inner Peekable[T]",
-  "same func(a, b T) bool",
-  "curr *runsInnerIterator[T]"]
-
-/-- type `sliceIterator` of `iterator`: one line per field / method -/
-def pin_iterator_type_sliceIterator : List String := ["type sliceIterator[T any] struct",
-  "a []T"]
-
-/-- type `whileIterator` of `iterator`: one line per field / method -/
-def pin_iterator_type_whileIterator : List String := ["type whileIterator[T any] struct",
-  "inner Iterator[T]",
-  "f func(T) bool",
-  "done bool"]
-
-/-- package-level var / const declarations of `iterator`, in source order -/
-def pin_iterator_vars : List String := []
 
 /-- type `Less` of `xsort`: one line per field / method -/
 def pin_xsort_type_Less : List String := ["type Less[T any] func(a, b T) bool"]
